@@ -254,7 +254,29 @@ func (g *TmGen) Run(nOps int, caseIdx int) {
 	w.emit(fmt.Sprintf("tm.create %s %d %d %d %d %s %d %x %s %d", name, tl.Numerator, tl.Denominator, int64(period), int64(drift), hstr(h0), t0.UnixNano(), root, g.setStr(v0next), now.UnixNano()),
 		"res=ok | "+g.clientDump(c, name))
 	stored := []storedCons{{h0, t0, v0next}}
+	// in most cases the client is upgraded once (governance) to the next revision of the chain,
+	// whose heights start again from a small number; headers of the old revision stay submittable
+	upAt := -1
+	if g.r.Chance(65) && nOps >= 6 {
+		upAt = nOps/4 + g.r.Intn(nOps/2)
+	}
 	for i := 0; i < nOps; i++ {
+		if i == upAt {
+			h2 := clienttypes.NewHeight(2, uint64(1+g.r.Intn(4)))
+			t2 := now
+			v2 := g.randSet()
+			root2 := []byte{byte(g.r.Intn(256)), 7, 7}
+			cs2 := ibctmtypes.NewClientState("fict-2", tl, period, period*3, drift, h2, commitmenttypes.GetSDKSpecs(), tibctesting.Prefix, 0)
+			cons2 := ibctmtypes.NewConsensusState(t2, commitmenttypes.NewMerkleRoot(root2), v2.Hash())
+			if err := ck.UpgradeClient(c.GetContext().WithBlockTime(now), name, cs2, cons2); err != nil {
+				w.T.Fatalf("upgrade fict client: %v", err)
+			}
+			w.Coord.CommitBlock(c)
+			w.emit(fmt.Sprintf("tm.upgrade %s %d %d %d %d %s %d %x %s", name, tl.Numerator, tl.Denominator, int64(period), int64(drift), hstr(h2), t2.UnixNano(), root2, g.setStr(v2)),
+				"res=ok | "+g.clientDump(c, name))
+			stored = append(stored, storedCons{h2, t2, v2})
+			g.stats["tm.upgrade"]++
+		}
 		// pick the trusted consensus state
 		tr := stored[len(stored)-1]
 		if g.r.Chance(25) {
@@ -368,17 +390,18 @@ func (g *TmGen) Run(nOps int, caseIdx int) {
 		if g.r.Chance(6) {
 			tvals = g.randSet()
 		}
+		chainID := fmt.Sprintf("fict-%d", tr.h.RevisionNumber)
 		spec := hdrSpec{chainID: chainID, height: hh, t: ht, vals: vals, nextVals: nextVals, modes: modes, valsHashOK: !g.r.Chance(4),
 			trustedH: tr.h, trustedVals: tvals, appHash: []byte{byte(i), byte(g.r.Intn(256))}}
 		basic := 1
 		switch g.r.Intn(30) {
 		case 0:
-			spec.chainID = "fict-2" // later revision, consistently signed
+			spec.chainID = fmt.Sprintf("fict-%d", tr.h.RevisionNumber+1) // later revision, consistently signed
 		case 1:
 			spec.commitHOff = 1 // structurally broken
 			basic = 0
 		case 2:
-			spec.trustedH = clienttypes.NewHeight(1, tr.h.RevisionHeight+uint64(50+g.r.Intn(5))) // no such consensus state
+			spec.trustedH = clienttypes.NewHeight(tr.h.RevisionNumber, tr.h.RevisionHeight+uint64(50+g.r.Intn(5))) // no such consensus state
 		}
 		if !spec.valsHashOK {
 			basic = 1 // handled by the explicit hash comparison in the model
@@ -415,6 +438,12 @@ func (g *TmGen) Run(nOps int, caseIdx int) {
 		if res != "ok" && before != after {
 			w.hit("C07", "rejected-update-changed-client-state")
 		}
+		if lb, la := latestOfDump(before), latestOfDump(after); la.LT(lb) {
+			w.hit("C07", fmt.Sprintf("latest-height-decreased-by-a-header-update %s->%s header=%s", hstr(lb), hstr(la), hstr(hHeight)))
+		}
+		if tr.h.RevisionNumber < latestCons.h.RevisionNumber {
+			g.stats["tm.update.old-revision."+res]++
+		}
 		g.oracleTm(statusBefore, res, spec, tr, adjacent, modes, tl, now, period, drift, hHeight)
 		valsHashLabel := g.hashLabel(hdr.Header.ValidatorsHash)
 		w.emit(fmt.Sprintf("tm.update %s %d %s %d %x %s %s %s %s %s %s %d", name, now.UnixNano(), hstr(hHeight), ht.UnixNano(), spec.appHash,
@@ -430,6 +459,13 @@ func (g *TmGen) Run(nOps int, caseIdx int) {
 			g.stats["tm.status."+string(st)]++
 		}
 	}
+}
+
+// latestOfDump reads the client's latest height back from a clientDump line
+func latestOfDump(d string) clienttypes.Height {
+	var r, h uint64
+	fmt.Sscanf(d, "latest=%d.%d", &r, &h)
+	return clienttypes.NewHeight(r, h)
 }
 
 func (g *TmGen) refreshStored(c *tibctesting.TestChain, name string, stored []storedCons) []storedCons {
